@@ -334,9 +334,9 @@ def r5_import_export_spelling(chk):
            'identifier positions: %s' % sorted(set(idents)))
 
 
-def r6_sibling_tails(chk):
+def r6_sibling_tails(chk, rule6='C04.R6'):
     model = chk.model
-    chk.doc('C04.R6', 'JsonCodeGen.genCode and PySnmpCodeGen.genCode share the rendering tail: list-valued search '
+    chk.doc(rule6, 'JsonCodeGen.genCode and PySnmpCodeGen.genCode share the rendering tail: list-valued search '
                       'path, same environment options, capfirst filter, get_template(dstTemplate or TEMPLATE_NAME), '
                       'render(mib=context) inside try/except TemplateError -> PySmiCodegenError')
     tails = {}
@@ -347,14 +347,30 @@ def r6_sibling_tails(chk):
         spv = sp[0] if sp else 'searchPath'
         start = [i for i, s in enumerate(fn.body) if isinstance(s, ast.Assign) and _key_is(s.targets[0], spv)]
         if not start:
-            chk.ob('C04.R6', '%s.genCode/tail' % cname, False, where(o.mod, fn), 'no searchPath assignment')
+            chk.ob(rule6, '%s.genCode/tail' % cname, False, where(o.mod, fn), 'no searchPath assignment')
             continue
         tail = fn.body[start[0]:]
         tails[cname] = [common.canon_text(s) for s in tail if not (isinstance(s, ast.Expr) and 'debug.logger' in norm(s))]
     if len(tails) == 2:
         a, b = tails['PySnmpCodeGen'], tails['JsonCodeGen']
-        chk.ob('C04.R6', 'genCode-tails-agree', a == b, PYSNMP,
+        chk.ob(rule6, 'genCode-tails-agree', a == b, PYSNMP,
                'first difference: %s' % (next(((x[:70], y[:70]) for x, y in zip(a, b) if x != y), 'length'),))
+    # the environment renders Python / JSON text, not HTML: the options are the three the templates were written for
+    # (loader, trim_blocks, lstrip_blocks) - autoescaping would HTML-escape every {{ expression }}
+    for rel, cname in ((PYSNMP, 'PySnmpCodeGen'), (JSONDOC, 'JsonCodeGen')):
+        ci_ = model.cls(rel, cname)
+        envs = [c for m_ in ci_.methods.values() for c in ast.walk(m_) if isinstance(c, ast.Call) and
+                dotted_name(c.func) in ('jinja2.Environment', 'Environment')]
+        for c in envs:
+            kws = dict((k.arg, k.value) for k in c.keywords)
+            extra = sorted(k for k in kws if k not in ('loader', 'trim_blocks', 'lstrip_blocks') and not (
+                isinstance(kws[k], ast.Constant) and kws[k].value in (False, None)))
+            okb = all(isinstance(kws.get(k), ast.Constant) and kws[k].value is True for k in ('trim_blocks', 'lstrip_blocks'))
+            chk.ob(rule6, '%s/jinja-environment-options' % cname, not extra and okb and not c.args, where(ci_.mod, c),
+                   'environment options %s (expected loader=..., trim_blocks=True, lstrip_blocks=True and nothing that '
+                   'changes what an expression renders to, such as autoescape)' % sorted(
+                       '%s=%s' % (k, norm(v)[:20]) for k, v in kws.items() if k != 'loader'))
+        chk.ob(rule6, '%s/jinja-environment-present' % cname, len(envs) >= 1, rel, '%d Environment(...) calls' % len(envs))
     from rules.C07 import r7_foreign_exceptions
     # template error conversion is C07.R7c; re-run it here under this property's id
     sub = type('Sub', (), {})()
@@ -363,7 +379,7 @@ def r6_sibling_tails(chk):
     r7_foreign_exceptions(tmp)
     for o in tmp.obligations:
         if o.rule == 'C07.R7c':
-            chk.ob('C04.R6', o.key, o.ok, o.where, o.detail)
+            chk.ob(rule6, o.key, o.ok, o.where, o.detail)
 
 
 def r7_one_line_literals(chk):
@@ -496,5 +512,23 @@ def r10_rendering_paths_are_python(chk, rule='C04.R10'):
     chk.floor(rule, 20, 'template blocks')
 
 
+
+def r11_generators_start_clean(chk):
+    """shared with C12.R2"""
+    from rules.C12 import r2_generator_reset
+    common.reuse(chk, r2_generator_reset, ('C12.R2',), 'C04.R11', 'both generators re-initialise, at the start of genCode, every attribute their handlers write and assign the per-call settings on every path (C12.R2): a text filter or template setting that survives from an earlier call makes the two back-ends disagree with what this call asked for', floor=12)
+
+
+
+def r12_default_formats_converted(chk):
+    """the template writes `defaultHexValue = <value>` unquoted for integer types: genDefVal must have converted the
+    digits to a number (shared with C05.R12, the DEFVAL decision table)"""
+    from rules.C05 import r12_defval_decision_table
+    common.reuse(chk, r12_defval_decision_table, ('C05.R12',), 'C04.R12',
+                 'genDefVal decision table (C05.R12): each DEFVAL notation x base type yields the format / value the '
+                 'default() macro of the pysnmp template expects (hex / binary literals of integer types become decimal '
+                 'numbers, of other types hex digits)', floor=5)
+
+
 RULES = [r1_shared_ir, r2_class_exhaustiveness, r3_field_agreement, r4_default_formats, r5_import_export_spelling,
-         r6_sibling_tails, r7_one_line_literals, r8_star_tuples, r9_definition_order, r10_rendering_paths_are_python]
+         r6_sibling_tails, r7_one_line_literals, r8_star_tuples, r9_definition_order, r10_rendering_paths_are_python, r11_generators_start_clean, r12_default_formats_converted]
